@@ -79,7 +79,19 @@ def build():
     defs.append(("marker_descends_like_unmarked", "bool", "true"))
     one(r"Some\(Special::Cname\(cname\)\)\s*=>\s*\{\s*if\s+walk\.enabled\(\)\s*\{.*?\}\s*self\.query_children\(", ha, "here_and_below Cname arm descends")
     one(r"Some\(Special::Cut\(cut\)\)\s*=>\s*\{\s*if\s+walk\.enabled\(\)\s*\{.*?\}\s*else\s*\{\s*NodeAnswer::authority\(", ha, "here_and_below Cut arm refers")
+    # walk mode
+    one(r"Some\(Special::Cut\(cut\)\)\s*=>\s*\{\s*if\s+walk\.enabled\(\)\s*\{\s*walk\.op\(&cut\.ns,\s*true\);\s*if\s+let\s+Some\(ds\)\s*=\s*&cut\.ds\s*\{\s*walk\.op\(ds,\s*true\);\s*\}\s*for\s+glue_rec\s+in\s+&cut\.glue\s*\{\s*walk\.op_glue_rec\(glue_rec\);\s*\}\s*NodeAnswer::no_data\(\)\s*\}", ha, "walk at a cut: NS, DS, glue, no descent")
+    one(r"if\s+walk\.enabled\(\)\s*\{\s*let\s+mut\s+rrset\s*=\s*Rrset::new\(Rtype::CNAME,\s*cname\.ttl\(\)\);\s*rrset\.push_data\(cname\.data\(\)\.clone\(\)\);\s*walk\.op\(&SharedRrset::new\(rrset\),\s*false\);\s*\}", ha, "walk at a CNAME")
+    one(r"if\s+walk\.enabled\(\)\s*\{\s*self\.query_rrsets\(node\.rrsets\(\),\s*qtype,\s*walk\.clone\(\)\);\s*self\.query_node_here_and_below\(\s*node,\s*Label::root\(\),\s*qname,\s*qtype,\s*walk,?\s*\)\s*\}", fn_body(rd, "query_node"), "query_node in walk mode")
+    one(r"if\s+walk\.enabled\(\)\s*\{\s*let\s+guard\s*=\s*rrsets\.iter\(\);\s*for\s+\(_rtype,\s*rrset\)\s+in\s+guard\.iter\(\)\s*\{\s*if\s+let\s+Some\(shared_rrset\)\s*=\s*rrset\.get\(self\.version\)\s*\{\s*walk\.op\(shared_rrset,\s*false\);\s*\}\s*\}\s*NodeAnswer::no_data\(\)\s*\}", fn_body(rd, "query_rrsets"), "query_rrsets in walk mode")
+    wk = fn_body(rd, "walk", after="impl ReadableZone for ReadZone")
+    one(r"self\.query_rrsets\(self\.apex\.rrsets\(\),\s*Rtype::ANY,\s*walk\.clone\(\)\);\s*self\.query_below_apex\(Label::root\(\),\s*iter::empty\(\),\s*Rtype::ANY,\s*walk\);\s*$", wk, "ReadZone::walk")
+    ws = strip_comments(read("src/zonetree/walk.rs"))
+    one(r"let\s+owner\s*=\s*rec\.owner\(\)\.to_owned\(\);\s*let\s+rrset:\s*Rrset\s*=\s*rec\.clone\(\)\.into\(\);\s*let\s+rrset\s*=\s*SharedRrset::new\(rrset\);\s*\(inner\.op\)\(owner,\s*&rrset,\s*true\);", fn_body(ws, "op_glue_rec"), "WalkState::op_glue_rec")
+    one(r"for\s+label\s+in\s+labels\.iter\(\)\.rev\(\)\s*\{\s*dname\.append_label\(label\.as_slice\(\)\)\.unwrap\(\);\s*\}\s*let\s+owner\s*=\s*dname\.append_origin\(&inner\.apex_name\)\.unwrap\(\);\s*\(inner\.op\)\(owner,\s*rrset,\s*at_zone_cut\);", fn_body(ws, "op"), "WalkState::op owner from the label stack")
+    defs.append(("walk_cut_reports_ns_ds_glue_no_descent", "bool", "true"))
     ch = fn_body(rd, "query_children")
+    one(r"if\s+walk\.enabled\(\)\s*\{\s*children\.walk\(walk,\s*\|walk,\s*\(label,\s*node\)\|\s*\{\s*walk\.push\(\*label\);\s*self\.query_node\(\s*node,\s*core::iter::empty\(\),\s*qtype,\s*walk\.clone\(\),?\s*\);\s*walk\.pop\(\);\s*\}\);\s*return\s+NodeAnswer::no_data\(\);\s*\}", ch, "query_children in walk mode visits every child")
     one(r"let\s+answer\s*=\s*children\.with\(label,\s*\|node\|\s*\{\s*node\.filter\(\|node\|\s*node\.exists\(self\.version\)\)\s*\.map\(\|node\|\s*self\.query_node\(node,\s*qname,\s*qtype,\s*walk\.clone\(\)\)\)\s*\}\);\s*if\s+let\s+Some\(answer\)\s*=\s*answer\s*\{\s*return\s+answer;\s*\}\s*children\.with\(Label::wildcard\(\),\s*\|node\|\s*\{\s*match\s+node\.filter\(\|node\|\s*node\.exists\(self\.version\)\)\s*\{\s*Some\(node\)\s*=>\s*\{\s*self\.query_node_here_but_not_below\(node,\s*qtype,\s*walk\)\s*\}\s*None\s*=>\s*NodeAnswer::nx_domain\(\)\s*,\s*\}\s*\}\)", ch, "query_children: existing exact child, else existing wildcard child, else NXDOMAIN")
     defs.append(("children_exact_then_wildcard", "bool", "true"))
     defs.append(("children_filtered_by_exists", "bool", "true"))
